@@ -86,7 +86,6 @@ for _p, _r in {
     'C03': 'check not built yet',
     'C04': 'check not built yet',
 
-    'C12': 'check not built yet',
     'C13': 'check not built yet',
     'C14': 'interleavings of concurrent processes: sequential contract-based VCs cannot quantify over schedules and no '
            'concurrency logic/verifier is available (DESIGN.md section 5, C14)',
@@ -138,3 +137,14 @@ bounded('C17',
         'DESIGN.md 5 C17, 3.8',
         'bounded scope; values with process-independent repr/pickle; builtin-hash keymaps excluded as in the statement.',
         TECH_B + '; fresh interpreter processes per hash seed')
+
+bounded('C12',
+        'Two parts. Level A (pyvc, counted in coverage.obligations): on every path of all 12 wrappers the user function is entered with '
+        'the caller\'s own *args/**kwds, and __init__ selects simple_round(tol) by default and deep_round(tol) when deep. Bounded (not a '
+        'proof): simple/deep/shallow rounders and the key path of inf_cache/lru_cache/safe.lfu_cache/keygen against an independent '
+        'oracle built on Python\'s round over nested argument structures (depth <=3, tol in {None,-1,0,1,2}): rounds like the oracle, '
+        'never fails, never mutates its input, leaves non-float data intact, keys merge exactly the calls that round alike, the function '
+        'receives the original objects. The property as a whole is claimed at the weaker level.',
+        'DESIGN.md 5 C12',
+        'bounded scope for the rounding functions themselves (no Level-A proof of simple_round/deep_round bodies); no NaN; one-shot iterables outside the scope.',
+        TECH_B + '; wrapper clauses by pyvc + z3')
